@@ -361,6 +361,10 @@ func templates() []tmpl {
 		T("prune-comp", "prune", "tree", "-c", "{multif}"),
 		T("prune-random", "prune", "tree", "--random", "3", "--seed", "1"),
 		T("reformat-newick", "reformat newick", "tree"),
+		// the two options of `reformat` that write ONE variable (F87): each given a non-default value, so that the
+		// documented default of the other one comes AFTER it on the explicit command line
+		T("reformat-format-nexus", "reformat newick", "treenexus", "--format", "nexus"),
+		T("reformat-if-nexus", "reformat newick", "treenexus", "-f", "nexus"),
 		T("reformat-nexus", "reformat nexus", "tree"),
 		B("reformat-nexus", T("reformat-nexus-t", "reformat nexus", "tree", "--translate")),
 		T("reformat-phyloxml", "reformat phyloxml", "tree"),
@@ -1011,6 +1015,25 @@ func preRunCases(c *core.Ctx, r *runner, only string) {
 	}
 }
 
+// generatedCases: the commands cobra itself adds at Execute() — `completion {bash,fish,powershell,zsh}`
+// with their one option --no-descriptions (default false), and `help` (no option) — do not exist when the
+// flag table is dumped (cobra 1.5 creates them in ExecuteC; initDefaultCompletionCmd is unexported), so they
+// are no rows of table (a).  They are covered here, through the binary only: option omitted vs
+// --no-descriptions=false, as ordinary C19.e2e lines.
+func generatedCases(c *core.Ctx, r *runner, only string) {
+	e := core.Escape
+	for _, sh := range []string{"bash", "zsh", "fish", "powershell"} {
+		name := "completion-" + sh
+		if only != "" && only != name {
+			continue
+		}
+		o0 := r.invoke([]string{"completion", sh}, nil, "")
+		o1 := r.invoke([]string{"completion", sh}, []string{"--no-descriptions=false"}, "")
+		c.Emit("C19.e2e", e("gotree completion "+sh), "no-descriptions", "bool", "false", name,
+			core.StrList(nil), core.StrList([]string{"--no-descriptions=false"}), e(o0), e(o1), "true")
+	}
+}
+
 // glueCases: what the anchored commands do with the value of their option (Model/C19Glue).
 //
 //	C19.glue  set  runs    runs: [value ("" = option omitted), outcome] …  (set-specific meaning, see the driver)
@@ -1194,6 +1217,10 @@ func Replay(c *core.Ctx, lines []string) {
 				r = newRunner(c, 0)
 			}
 			path, flag, name := strings.TrimPrefix(un(1), "gotree "), un(2), un(5)
+			if strings.HasPrefix(name, "completion-") {
+				generatedCases(c, r, name)
+				continue
+			}
 			var ts []tmpl
 			for _, t := range allTemplates() {
 				if t.Path == path && (name == "" || t.Name == name) {
@@ -1261,6 +1288,7 @@ func Run(c *core.Ctx) {
 			effects(c, r, ts, "")
 			preRunCases(c, r, "")
 			glueCases(c, r, "")
+			generatedCases(c, r, "")
 		}
 		r.close()
 	}
